@@ -15,7 +15,9 @@
 EXTENDS RefSem, Json, IOUtils
 
 CONSTANT NChunks
-Recs == ndJsonDeserialize(IOEnv.TRACE)
+\* parsed once at start-up into a TLC register (TLC re-evaluates a definition that reads a file on every reference)
+ASSUME TLCSet(7, ndJsonDeserialize(IOEnv.TRACE))
+Recs == TLCGet(7)
 OutDir == IOEnv.OUTDIR
 
 RECURSIVE MatchJ(_, _)
